@@ -129,6 +129,10 @@ func (st *c08State) materialise(target string) {
 		full := filepath.Join(target, e)
 		if strings.HasSuffix(e, "/") {
 			os.MkdirAll(full, 0o755)
+		} else if strings.HasSuffix(e, "@") {
+			// an extra entry that is a symbolic link: dangling, or a loop back to its own directory
+			os.MkdirAll(filepath.Dir(full), 0o755)
+			os.Symlink([]string{"no-such-destination", "."}[len(e)%2], strings.TrimSuffix(full, "@"))
 		} else {
 			os.MkdirAll(filepath.Dir(full), 0o755)
 			os.WriteFile(full, []byte("extra"), 0o644)
@@ -208,7 +212,7 @@ func evalC08(c *Ctx, cs *Case) {
 				}
 			}
 			sort.Strings(dirs)
-			where := r.Intn(4)
+			where := r.Intn(5)
 			name := []string{"zz_extra", "zz.go", "Xtra dir", "zz_é"}[r.Intn(4)] + strconv.Itoa(k)
 			switch {
 			case where == 0 || len(dirs) == 0:
@@ -217,6 +221,9 @@ func evalC08(c *Ctx, cs *Case) {
 				st.extras = append(st.extras, dirs[r.Intn(len(dirs))]+"/"+name)
 			case where == 2:
 				st.extras = append(st.extras, dirs[r.Intn(len(dirs))]+"/"+name+"/")
+			case where == 4:
+				st.extras = append(st.extras, dirs[r.Intn(len(dirs))]+"/"+name+"@")
+				c.Count("states_with_symlink_extra", 1)
 			default:
 				st.extras = append(st.extras, dirs[r.Intn(len(dirs))]+"/"+name+"/deep/f")
 			}
